@@ -15,15 +15,15 @@ import (
 // stated memory assumptions). No arithmetic reasoning is done on terms; they are compared
 // by key and inspected by shape.
 type Term struct {
-	K    string
-	Op   string // const param freevar global alloc fieldaddr indexaddr load call extract binop unop conv phi field index lookup slice make closure fn other
-	Aux  string // operator, field name, callee name, type, extract index ...
-	Args []*Term
-	Fn   string          // enclosing function for call terms
-	Folded bool          // constant produced by folding integer operators
-	Int  int64
-	V    ssa.Value       // originating value (nil for synthesised)
-	In   ssa.Instruction // originating instruction for call/load terms
+	K      string
+	Op     string // const param freevar global alloc fieldaddr indexaddr load call extract binop unop conv phi field index lookup slice make closure fn other
+	Aux    string // operator, field name, callee name, type, extract index ...
+	Args   []*Term
+	Fn     string // enclosing function for call terms
+	Folded bool   // constant produced by folding integer operators
+	Int    int64
+	V      ssa.Value       // originating value (nil for synthesised)
+	In     ssa.Instruction // originating instruction for call/load terms
 }
 
 func (t *Term) String() string {
@@ -332,4 +332,3 @@ func SubstFree(t *Term, fv map[string]*Term, snap map[string]*Term, fromFn strin
 	}
 	return rebuild(t, args, fromFn)
 }
-
